@@ -9,6 +9,7 @@ import PonyVerif.Lemmas.PyPrint7
 import PonyVerif.Lemmas.PreTrans
 import PonyVerif.Lemmas.PreTransCov
 import PonyVerif.Gen.C04Src
+import PonyVerif.Lemmas.Scope
 namespace PonyVerif.Props.C04
 open PonyVerif.Model.PyPrint
 
@@ -215,6 +216,56 @@ theorem C04_external_sound_full_false :
   intro h
   have := h ["p"] (.mk .starred 0 [] (.cons (.mk .nameLoad 1 ["p"] .nil) .nil)) (by decide)
   revert this; decide
+
+/-! ### in which scope a name of the query is looked up (`get_globals_and_locals`, `extract_vars`, `eval`; `Model/Scope.lean`) -/
+
+open PonyVerif.Model.Scope in
+/-- a generator query, whoever calls select()/get()/exists()/left_join()/delete()/count()… with it and whatever that frame's locals and
+    globals bind: a free variable of the generator has the value of the generator's own frame -/
+theorem C04_scope_generator_own (s : Scopes) (n : String) (v : Int) (he : s.explicitGlobals = none) (hc : s.cells = [])
+    (h : s.ownLocals.lookup n = some v) : resolve .generator s n = some v :=
+  generator_own s n v he hc h
+
+open PonyVerif.Model.Scope in
+/-- … and a name the generator loads as a global has the value it has in the module the generator was written in -/
+theorem C04_scope_generator_global (s : Scopes) (n : String) (he : s.explicitGlobals = none) (hc : s.cells = [])
+    (hg : n ∈ s.globalNames) (hl : s.ownLocals.lookup n = none) : resolve .generator s n = s.ownGlobals.lookup n :=
+  generator_global s n he hc hg hl
+
+open PonyVerif.Model.Scope in
+/-- a lambda query / filter: a closure cell wins over everything … -/
+theorem C04_scope_function_cell (s : Scopes) (n : String) (v : Int) (h : s.cells.lookup n = some v) :
+    resolve .function s n = some v :=
+  function_cell s n v h
+
+open PonyVerif.Model.Scope in
+/-- … and a name it loads as a global has the value of the lambda's own module -/
+theorem C04_scope_function_global (s : Scopes) (n : String) (he : s.explicitGlobals = none) (hg : n ∈ s.globalNames)
+    (hl : s.cells.lookup n = none) : resolve .function s n = s.ownGlobals.lookup n :=
+  function_global s n he hg hl
+
+open PonyVerif.Model.Scope in
+/-- the text of a query is evaluated in the frame that hands it over: its locals, then its globals -/
+theorem C04_scope_text (s : Scopes) (n : String) (he : s.explicitGlobals = none) (hc : s.cells = []) :
+    resolve .text s n = (s.callerLocals.lookup n).orElse (fun _ => s.callerGlobals.lookup n) :=
+  text_caller s n he hc
+
+open PonyVerif.Model.Scope in
+/-- a name the query's code does not mention (what `raw_sql('$x')` looks up) comes from the calling frame's locals -/
+theorem C04_scope_unmentioned (s : Scopes) (n : String) (he : s.explicitGlobals = none) (hg : n ∉ s.globalNames)
+    (hl : s.ownLocals.lookup n = none) (hc : s.cells.lookup n = none) :
+    resolve .generator s n = (s.callerLocals.lookup n).orElse (fun _ => s.ownGlobals.lookup n) :=
+  unmentioned_name s n he hg hl hc
+
+open PonyVerif.Model.Scope in
+/-- with explicit dictionaries the generator's own frame still wins over the given locals -/
+theorem C04_scope_explicit_generator_own (s : Scopes) (g : Env) (n : String) (v : Int) (he : s.explicitGlobals = some g)
+    (hc : s.cells = []) (h : s.ownLocals.lookup n = some v) : resolve .generator s n = some v :=
+  explicit_generator_own s g n v he hc h
+
+open PonyVerif.Model.Scope in
+/-- the helper/caller example of the seeded change c04-2: creator binds limit = 4, the caller limit = 9 -/
+example : resolve .generator ⟨[("limit", 9)], [], [("limit", 4)], [], [], [], none, none⟩ "limit" = some 4 := by decide
 
 /-! ### bridges to the current source (`Gen/C04Src.lean` is regenerated from pony/orm/asttranslation.py on every run) -/
 
